@@ -776,15 +776,27 @@ def shards(tier, seed):
 
 def run_shard(desc, deadline):
     res = Result()
-    if desc['part'] == 'registry':
-        run_registry(res, deadline)
-    elif desc['part'] == 'bulk':
-        run_registry._section = desc['section']
-        run_registry(res, deadline, reg=bulk_registry(desc['section']))
-        run_registry._section = None
-    else:
-        run_chunk_invariant(res, desc['format'], desc['view'], desc['max_fields'], deadline)
+    try:
+        if desc['part'] == 'registry':
+            run_registry(res, deadline)
+        elif desc['part'] == 'bulk':
+            run_registry._section = desc['section']
+            run_registry(res, deadline, reg=bulk_registry(desc['section']))
+            run_registry._section = None
+        else:
+            run_chunk_invariant(res, desc['format'], desc['view'], desc['max_fields'], deadline)
+    finally:
+        _drop_bam_scratch()
     return res
+
+
+def _drop_bam_scratch():
+    # pool workers leave through os._exit (no atexit handlers): remove the scratch BAM of this process here
+    if _BAM.get('path'):
+        import os
+        import shutil
+        shutil.rmtree(os.path.dirname(_BAM['path']), ignore_errors=True)
+        _BAM.clear()
 
 
 def replay_case(case):
